@@ -24,6 +24,7 @@ type Event struct {
 	Ep    int    // epoch whose share signs
 
 	Vacant []int // transition: share indices of the new epoch that no member holds
+	MeIdx  int   // transition: 1 + the index the node holds in the new epoch (0: unchanged)
 
 	Given *Epoch `json:"-"` // transition: the new epoch, already dealt (system engine: the same for every node)
 
@@ -284,13 +285,13 @@ func (r *runner) Do(ev Event) Obs {
 		ep := ev.Given
 		if ep == nil {
 			var err error
-			if ep, err = w.newEpoch(ev.From, ev.Claim, tt, ev.Vacant); err != nil {
+			if ep, err = w.newEpoch(ev.From, ev.Claim, tt, ev.Vacant, ev.MeIdx-1); err != nil {
 				panic(err)
 			}
 		}
 		w.Epochs = append(w.Epochs, ep)
 		r.lastTarget = int64(ev.Round) - 1
-		w.H.TransitionNewGroup(ctx, ep.Shares[w.Me], ep.Group)
+		w.H.TransitionNewGroup(ctx, ep.Shares[w.meIn(ep)], ep.Group)
 	case "syncmode":
 		w.Client.mu.Lock()
 		if ev.Sync == "honest" {
@@ -387,7 +388,7 @@ func (r *runner) Do(ev Event) Obs {
 				valid = true
 			}
 		}
-		if idx, err := w.Sch.ThresholdScheme.IndexOf(e.Sig); err != nil || idx != w.Me {
+		if idx, err := w.Sch.ThresholdScheme.IndexOf(e.Sig); err != nil || !w.isOwnIndex(idx) {
 			valid = false
 		}
 		for k := 0; k < reps; k++ {
